@@ -137,7 +137,7 @@ func isRepoCallee(c ssa.CallInstruction) bool {
 		return cc.Method.Pkg() != nil && strings.HasPrefix(cc.Method.Pkg().Path(), core.Module)
 	}
 	if f := cc.StaticCallee(); f != nil && f.Pkg != nil {
-		return strings.HasPrefix(f.Pkg.Pkg.Path(), core.Module)
+		return strings.HasPrefix(core.PkgPath(f), core.Module)
 	}
 	return false
 }
@@ -225,7 +225,7 @@ func helperMayReturnNil(e ssa.Value, failure ssa.Value) bool {
 		return false
 	}
 	g := c.Call.StaticCallee()
-	if g == nil || g.Blocks == nil || g.Pkg == nil || !strings.HasPrefix(g.Pkg.Pkg.Path(), core.Module) {
+	if g == nil || g.Blocks == nil || g.Pkg == nil || !strings.HasPrefix(core.PkgPath(g), core.Module) {
 		return false
 	}
 	// the parameters the failure is passed as
@@ -524,7 +524,7 @@ func c07(w *core.World, r *core.Report) {
 		if !scope[f] || f.Pkg == nil {
 			continue
 		}
-		pp := f.Pkg.Pkg.Path()
+		pp := core.PkgPath(f)
 		if !(strings.HasPrefix(pp, core.Module+"/pkg/datastore") || strings.HasPrefix(pp, core.Module+"/pkg/tree") || strings.HasPrefix(pp, core.Module+"/pkg/utils") || strings.HasPrefix(pp, core.Module+"/pkg/cache")) {
 			continue
 		}
